@@ -11,10 +11,10 @@ from ..veq import veq, norm
 LEVEL = "exploration"
 RULE = ("combinator instances Peek/Pointer/Select/Optional/GreedyRange(discard on/off)/Union(parsefrom None|index|name|expr, named and unnamed members) "
         "over members drawn from fixed, variable-length, validating and nested constructs; inputs: canonical encodings, every truncation, a "
-        "violating byte planted at every position, random bytes; every start offset 0..5; parse and build. non-trivial = case in which at least "
+        "violating byte planted at every position, random bytes; every start offset 0..5; parse and build; Pointer also with stream= naming a second stream standing elsewhere. non-trivial = case in which at least "
         "one alternative/element failed after consuming >= 1 byte; distinct by (combinator instance, input)")
 ASSUMPTIONS = ["elements that can succeed without consuming input are not used as GreedyRange elements (termination is C06's subject)",
-               "the stream position after a combinator that fails as a whole is unspecified and not checked"]
+               "after Select fails as a whole the stream must stand where it started (no trace of a failed alternative); for the other combinators the position after a failure of the whole is not checked"]
 REQUIRED_ANCHORS = ["core:Select._parse", "core:Select._build", "core:GreedyRange._parse", "core:Peek._parse", "core:Peek._build",
                     "core:Pointer._parse", "core:Pointer._build", "core:Union._parse", "core:Optional"]
 ANCHORS = REQUIRED_ANCHORS
@@ -402,7 +402,11 @@ def case_union(ctx, case):
 KINDS = {"peek": case_peek, "pointer": case_pointer, "select": case_select, "greedy": case_greedy, "union": case_union}
 
 
+LAST = [None]
+
+
 def run_case(ctx, case):
+    LAST[0] = case
     KINDS[case["kind"]](ctx, case)
 
 
@@ -481,8 +485,8 @@ def run(ctx):
                     for pf in pfs:
                         run_case(ctx, {"kind": "union", "members": members, "parsefrom": pf, "data": tag(data), "offset": off})
         ctx.count("jobs_" + kind)
-        if i % 97 == 0:
-            ctx.sample({"job": list(job) if kind != "union" else ["union", list(job[1])]})
+        if i % 97 == 0 and LAST[0] is not None:
+            ctx.sample(LAST[0])          # the last concrete case of this combinator instance, as it was run
 
 
 def replay(ctx, case):
